@@ -11,7 +11,7 @@
     [hist_calls h steps]: all host calls of the history, in order (receive calls, forced exits of
     persist, exits and closes of drop, call-site registrations of the restored receiver). *)
 From TT Require Import Tunnel.TypesProofs Tunnel.ReceiverSpec Tunnel.ReceiverInv Tunnel.ReceiverHistInv
-  Tunnel.ReceiverTrack Judge.C08.
+  Tunnel.ReceiverTrack Tunnel.ReceiverOrder Tunnel.ReceiverOrderProofs Judge.C08 Judge.RecvProofs.
 From stdpp Require Import gmap.
 Open Scope N_scope.
 
@@ -107,6 +107,36 @@ Proof. exact track_no_double_close. Qed.
 Theorem C08_close_once : forall steps,
   hist_scope hist_init steps -> NoDup (closed (hist_calls hist_init steps)).
 Proof. exact hist_close_once. Qed.
+
+(** * Clauses 1 and 2 for every order the code may pick
+
+    The finalisation batches and the registrations of a restored receiver come from iterating hash
+    containers; [obs_reorder] (Tunnel/ReceiverOrder.v) relates a step's observation to the same
+    observation with the exits permuted, then the closes permuted, and the registrations permuted. *)
+Theorem C08_history_ids_valid_any_order : forall steps obs',
+  hist_scope hist_init steps -> Forall2 obs_reorder (hist_run hist_init steps) obs' ->
+  exists opn, track_all ∅ (flat_map mobs_calls obs') = Some opn /\
+              TInv (h_st (hist_final hist_init steps)) (h_w (hist_final hist_init steps)) opn.
+Proof. exact hist_ids_valid_any_order. Qed.
+
+Theorem C08_close_once_any_order : forall steps obs',
+  hist_scope hist_init steps -> Forall2 obs_reorder (hist_run hist_init steps) obs' ->
+  NoDup (closed (flat_map mobs_calls obs')).
+Proof. exact hist_close_once_any_order. Qed.
+
+(** the strict tracker cannot tell two such orders apart *)
+Theorem C08_tracker_order_insensitive : forall opn l l',
+  reorder l l' -> track_all opn l = track_all opn l'.
+Proof. exact track_all_reorder. Qed.
+
+(** On every history on which the judge found the implementation equal to the model
+    ([corr_history]), the calls the implementation really made - every batch in the order in which
+    it was made - are accepted by the strict tracker, and no host id is closed twice. *)
+Theorem C08_implementation_calls_valid : forall steps impl,
+  hist_scope hist_init steps -> corr_history steps impl = true ->
+  (exists opn, track_all ∅ (flat_map iobs_calls impl) = Some opn) /\
+  NoDup (closed (flat_map iobs_calls impl)).
+Proof. exact impl_calls_tracked. Qed.
 
 (** * Clause 3: the host span is closed exactly once, at the drop of the last handle *)
 Theorem C08_close_at_last_drop : forall st w id d o st' w' calls,
